@@ -474,6 +474,10 @@ bool StepExtended(ScriptExecutionEnvironment& env, CScript::const_iterator& pc, 
                 // division by zero is a script failure, not an arithmetic trap
                 return set_error(serror, SCRIPT_ERR_UNKNOWN_ERROR);
             }
+            if ((env.opcode == OP_LSHIFT || env.opcode == OP_RSHIFT) && (num2 < 0 || num2 > 63)) {
+                // a negative shift count, or one of the full width and more, has no defined result
+                return set_error(serror, SCRIPT_ERR_UNKNOWN_ERROR);
+            }
             switch (env.opcode) {
             case OP_MUL: num1 = num1 * num2; break;
             case OP_DIV: num1 = num1 / num2; break;
